@@ -130,6 +130,8 @@ type Conn struct {
 	Echoes []Spec
 	// Faults maps a call kind to a FIFO of answers ("ok" is the default when empty).
 	Faults map[string][]string
+	// Sticky maps a call kind to the answer given whenever its FIFO is empty (instead of "ok").
+	Sticky map[string]string
 	// Calls is a log of the remote calls made.
 	Calls []string
 
@@ -167,6 +169,9 @@ func (c *Conn) Reopen() {
 func (c *Conn) answer(kind string) string {
 	q := c.Faults[kind]
 	if len(q) == 0 {
+		if a, ok := c.Sticky[kind]; ok {
+			return a
+		}
 		return "ok"
 	}
 	a := q[0]
